@@ -87,3 +87,31 @@ def _vel(cls, target):
 
 scenario("artap.algorithm_swarm:SwarmAlgorithm.update_velocity", bound="random swarms <= 3 particles, leaders <= 3")(_vel("OMOPSO", None))
 scenario("artap.algorithm_swarm:PSOGA.update_velocity", bound="random swarms <= 3 particles, leaders <= 3")(_vel("PSOGA", None))
+
+
+def _ugb(cls):
+    def gen(rng, tier):
+        from artap.archive import Archive
+        from artap.operators import ParetoDominance
+        a = _algo(cls)
+        for k in range(60 if tier == "quick" else 1000):
+            size = rng.choice([1, 2, 3, 5])
+            a.options['max_population_size'] = size          # set after construction, as users do
+            a.leaders = Archive(ParetoDominance())
+            swarm = []
+            for _ in range(rng.randint(1, 8)):
+                p = _particle(rng)
+                f1 = rng.choice([0.0, 1.0, 2.0, 3.0, 4.0])
+                p.costs_signed = [f1, 4.0 - f1 + rng.choice([0.0, 0.0, 1.0]), 0]
+                swarm.append(p)
+            for _ in range(rng.randint(0, 2)):                # earlier generations
+                a.update_global_best([_particle(rng) for _ in range(rng.randint(1, 4))])
+            yield {"call": lambda self, swarm: self.update_global_best(swarm), "args": {"self": a, "swarm": swarm},
+                   "extra": {"acmp": lambda c_, p, q: c_.compare(p, q), "cmp_ok": lambda c_, p, q: True},
+                   "label": "#%d %s size=%d swarm=%r" % (k, cls, size, [p.costs_signed for p in swarm])}
+    gen.__name__ = "c18_ugb_" + cls
+    return gen
+
+
+for _c in ("SMPSO", "PSOGA"):
+    scenario("artap.algorithm_swarm:%s.update_global_best" % _c, bound="population size in {1,2,3,5} set after construction, swarms <= 8 with long non-dominated fronts")(_ugb(_c))
